@@ -82,6 +82,13 @@ let handle line =
       "N:" ^ string_of_int (List.length st.f_c.c_order);
       "Q:" ^ string_of_int (List.length st.f_q);
       "C:" ^ (match st.f_cur with None -> "none" | Some _ -> "some") ]
+  | "FLOW" :: lim :: evs ->
+    (* FLOW <_limit> <F:size | P> ...  -> NONE | paused01;size;buffered *)
+    let parse_ev s = match String.split_on_char ':' s with
+      | ["F"; z] -> FlFeed (n_of_s z) | ["P"] -> FlPop | _ -> failwith ("bad event " ^ s) in
+    (match flrun (n_of_s lim) flinit (List.map parse_ev evs) with
+     | None -> "NONE"
+     | Some st -> String.concat ";" [b01 st.fl_paused; string_of_int (int_of_n st.fl_size); string_of_int (List.length st.fl_buf)])
   | "QUEUE" :: evs ->
     let parse_ev s =
       match String.split_on_char '/' s with
